@@ -479,6 +479,18 @@ def check_lex_updates(rep, prog):
                 rep.violation('R12c', min(group, key=lambda g_: g_.line).node, fn, what, '; '.join(probs), key='R12c|%s|site-%d' % (fn.g, sorted(blocks).index(b)))
             else:
                 rep.ok('R12c', min(group, key=lambda g_: g_.line).node, fn, what, 'put(lex, w, c); put(dist, w, c.distance); put(pred, w, (true, e))')
+        # the caller's maps are filled by this search alone: handing them to another search (plain dijkstra breaks ties by discovery order,
+        # which differs from source to source) makes the trees of different roots disagree on tied paths
+        whatd = 'the distance / predecessor maps of lex_dijkstra are written by the lexicographic relaxation only'
+        deleg = [c for c in fn.walk() if c.k == 'CallExpr' and c.callee and c.callee.get('in_repo') and c.callee['g'] != fn.g and
+                 any(ex.var_of(a_) in (distp, predp) for a_ in c.args())]
+        deleg = [c for c in deleg if prog.fn_of_fref(c.callee_id) is not None and
+                 any(x.k == 'CallExpr' and x.callee and x.callee['g'] == 'boost::put' for x in prog.fn_of_fref(c.callee_id).walk())]
+        if deleg:
+            conds = [c_.text(40) for (c_, _p) in ex.ast_conditions(deleg[0])]
+            rep.violation('R12c', deleg[0], fn, whatd, '`%s` fills the caller\'s maps with another search%s: ties between equally long paths are then broken by discovery '
+                          'order instead of (edge count, vertex set), so the paths u->v and v->u of two trees need not be the reverse of each other and the isometric '
+                          'filter discards circuits the basis needs' % (deleg[0].text(40), (' (when `%s`)' % conds[-1]) if conds else ''), key='R12c|%s|delegated' % fn.g)
         # source initialisation
         whats = 'the source starts with the zero label and no predecessor'
         init = [c for c in puts if c.enclosing('ForStmt', 'CXXForRangeStmt') is None and c.enclosing('WhileStmt') is None and ex.var_of(c.args()[1]) == src]
